@@ -436,11 +436,19 @@ pub fn symver(r: &mut Rng, n: u64, x: &mut Exec, sink: &mut Sink) {
         let vb = enc_ver(&m, little, mode, r);
         let mut op = json!({"op":"symver","class":class,"es":es,"versym":bytes_val(&vb.versym),"model":model_json(&m)});
         // a section is present whenever it has records; sometimes present-but-empty, sometimes absent
+        // the declared record count is usually exact; a larger count changes nothing (the chain ends at next = 0),
+        // a smaller one hides the later records - the ground-truth model is cut accordingly
+        let mut mj = model_json(&m);
+        let ncnt = match r.below(6) { 0 => m.needs.len() as u64 + r.range(1, 3), 1 if m.needs.len() > 1 => r.range(1, m.needs.len() as u64 - 1), _ => m.needs.len() as u64 };
+        let dcnt = match r.below(6) { 0 => m.defs.len() as u64 + r.range(1, 3), 1 if m.defs.len() > 1 => r.range(1, m.defs.len() as u64 - 1), _ => m.defs.len() as u64 };
+        if (ncnt as usize) < m.needs.len() { let a = mj["needs"].as_array().unwrap()[..ncnt as usize].to_vec(); mj["needs"] = json!(a); }
+        if (dcnt as usize) < m.defs.len() { let a = mj["defs"].as_array().unwrap()[..dcnt as usize].to_vec(); mj["defs"] = json!(a); }
+        op["model"] = mj;
         if !m.needs.is_empty() || r.chance(1, 2) {
-            op["need"] = json!({"buf":bytes_val(&vb.need),"count":w8(m.needs.len() as u64),"str":bytes_val(&vb.strs)});
+            op["need"] = json!({"buf":bytes_val(&vb.need),"count":w8(ncnt),"str":bytes_val(&vb.strs)});
         }
         if !m.defs.is_empty() || r.chance(1, 2) {
-            op["def"] = json!({"buf":bytes_val(&vb.def),"count":w8(m.defs.len() as u64),"str":bytes_val(&vb.strs)});
+            op["def"] = json!({"buf":bytes_val(&vb.def),"count":w8(dcnt),"str":bytes_val(&vb.strs)});
         }
         let mut q = Vec::new();
         for i in 0..(m.versym.len() as u64 + 2) { q.push(json!(["req", w8(i)])); q.push(json!(["def", w8(i)])); }
